@@ -268,3 +268,10 @@ def run(ctx):
     own, none = _composite.split_replay(ctx, ["scd"])
     cov, f, k = ({"evaluations": 0, "distinct_nontrivial": 0}, [], []) if none else _run_c14_scd(own)
     return _scd.second(ctx, "C14", cov, f, k)
+
+
+# --- DAEMON ops (server/daemon New / Serve / Close, internal/activation, zhttp recovery against the REAL daemon on loopback listeners):
+# a further correspondence under the pseudo-property C14DMN, checklib/models/daemon.py; theorems in lean/Relic/Props/C14_Daemon.lean
+import sys as _sys_dmn, os as _os_dmn
+_sys_dmn.path.insert(0, _os_dmn.path.join(_os_dmn.path.dirname(_os_dmn.path.dirname(_os_dmn.path.abspath(__file__))), "models"))
+import daemon as _dmn; _dmn.wrap(globals(), "C14")
